@@ -180,7 +180,9 @@ func TestRaceChild(t *testing.T) {
 				ops := func(g int) map[string]func(i int) {
 					return map[string]func(i int){
 						"AddLabels": func(i int) {
-							idx.AddLabels(fmt.Sprintf("n%d", i%5), km.ByModel[fmt.Sprintf("k%d", 1+i%4)], "a", fmt.Sprintf("l%d", i%3))
+							// a new cache name every few calls: the per-name map of the index keeps growing while
+							// invalidations iterate over it
+							idx.AddLabels(fmt.Sprintf("n%d-%d", g, i/3), km.ByModel[fmt.Sprintf("k%d", 1+i%4)], "a", fmt.Sprintf("l%d", i%3))
 						},
 						"AddCache":   func(i int) { idx.AddCache(fmt.Sprintf("n%d", i%5), bes[i%2].Raw().(cache.Deleter)) },
 						"Invalidate": func(i int) { _, _ = idx.InvalidateByLabels(context.Background(), "a", fmt.Sprintf("l%d", i%3)) },
